@@ -117,6 +117,10 @@ def run_unit(seed=None, unit=None, tier="quick", stats=None, prop="C06"):
             early = True
             capacity = 100
             close_after = max(close_after, 2)
+        if spec.nestclose_motif and r % 2 == 1:
+            # the producer completes the items itself and the consumer closes mid-stream
+            early = False
+            close_after = 1 + st.draw(2, "w2_n_close")
         world = World2(sim, spec, early, capacity)
         ctx = CancelCtx(world)
         out = {"waiting": None, "payloads": 0, "closed": False, "ended": False, "error": None}
@@ -179,6 +183,8 @@ def run_unit(seed=None, unit=None, tier="quick", stats=None, prop="C06"):
                  sum(1 for s_ in spec.all_streams if s_.fail_by_item and s_.queue is not None))
             bump(stats, "probes", "w2_items_pushed_behind_failing_item", world.pushed_behind_failure)
             bump(stats, "probes", "w2_slow_item_cancellations", world.slow_cancels)
+            bump(stats, "probes", "w2_cancelled_producers_aborting_nested_work",
+                 world.nested_aborts_by_producer)
             bump(stats, "probes", "w2_hanging_items_cancelled",
                  sum(1 for e in sim.externals if e.hanging and e.state == "cancelled"))
         vs = []
@@ -215,6 +221,12 @@ def run_unit(seed=None, unit=None, tier="quick", stats=None, prop="C06"):
                     if ss.abort_calls > 1:
                         vs.append(Violation(prop, "source_closed_twice", dict(fp, source="w2"),
                                             {"stream": ss.label, "calls": ss.abort_calls}))
+                        break
+                    if ss.abort_calls and ss.slow_close and not ss.close_started:
+                        vs.append(Violation(prop, "source_not_closed", dict(
+                            fp, source="w2", what="closing_never_started",
+                            stream_announced=ss.label in ann_labels,
+                            provenance=_provenance(spec, world, ss)), {"stream": ss.label}))
                         break
                     if ss.started and not ss.finished and ss.abort_calls == 0:
                         vs.append(Violation(prop, "source_not_closed", dict(
